@@ -79,7 +79,7 @@ def entry_of(kind, rng, ids=None):
     if kind == "nonobject":
         return rng.choice([1, 0, "x", "", None, True, False, [], [1], 1.5, ["echo"], [[]]])
     if kind == "failing":
-        m = rng.choice(["fail", "failkey", "failos", "failuser", "failempty", "sub.fail", "notready", "notready",
+        m = rng.choice(["fail", "failkey", "failos", "failuser", "failempty", "sub.fail", "notready", "notready", "failattr", "faillookup",
                         "notready2"])
         return dict(base, method=m, id=rid, params=rng.choice([[], [1], {"a": 1}]))
     if kind == "unknown":
